@@ -90,6 +90,11 @@ def payload_forms(rnd):
         ("typed-let-option-clone", "    let v: Option<Bar> = None;\n", "v.clone()", "", t_opt),
         ("typed-let-prim", "    let v: f32 = 1.0;\n", "v", "", rg.P("f32")),
         ("let-struct-expr", "    let v = Foo { a: 2 };\n", "&v", "", rg.N("Foo")),
+        # a binding shadowed by a later one of another type: the payload has the type of the binding in force at the call
+        ("shadowed-let-struct-expr", "    let v = Foo { a: 2 };\n    let _earlier = &v;\n    let v = Bar { b: String::new() };\n", "&v", "", rg.N("Bar")),
+        ("shadowed-typed-let", "    let v: Foo = make_foo();\n    drop(v);\n    let v: Vec<Bar> = Vec::new();\n", "v", "", ("vec", rg.N("Bar"))),
+        ("let-shadows-typed-parameter", "    let p = Bar { b: String::new() };\n", "&p", "p: Foo", rg.N("Bar")),
+        ("typed-let-shadows-typed-parameter", "    let p: Kind = pick();\n", "p", "p: Foo", rg.N("Kind")),
         # not syntactically evident => unknown
         ("call-result", "", "make_foo()", "", None),
         ("method-result", "", "p.to_summary()", "p: Foo", None),
